@@ -9,6 +9,8 @@
 (*   "fail"    return an error                                             *)
 (*   "cancel"  cancel the context while evaluating, report not solved      *)
 (*   "csolved" cancel the context while evaluating, report solved          *)
+(* Independently the scripted OBSERVER may cancel the context while it is   *)
+(* being notified (ocancel: a set of notifications <<kind, trial, gen>>).   *)
 (* One action per step of experiment_execute.go that is visible to the     *)
 (* evaluator, the observer or the caller.  Populations are abstracted to   *)
 (* <<trial, turnovers>>: a fresh spawn gives <<r, 0>>, an epoch turnover   *)
@@ -18,6 +20,7 @@ EXTENDS Integers, Sequences, FiniteSets
 
 CONSTANTS NumRuns, NumGens   \* configured trials and maximal generations per trial
 VARIABLES script, observer,  \* inputs
+          ocancel,           \* inputs: the observer notifications during which the (scripted) observer cancels the context
           pc, run, gen, pop, cancelled,
           evals,             \* evaluator log: <<trial, generation, population>>
           calls,             \* observer log: <<"start"|"epoch"|"finish", trial, generation>>
@@ -25,13 +28,14 @@ VARIABLES script, observer,  \* inputs
           trials,            \* recorded trials: [id, gens]
           finalPops,         \* population of each recorded trial when the trial finished
           err                \* "" | "fail" | "cancelled"
-vars == <<script, observer, pc, run, gen, pop, cancelled, evals, calls, cur, trials, finalPops, err>>
+vars == <<script, observer, ocancel, pc, run, gen, pop, cancelled, evals, calls, cur, trials, finalPops, err>>
 
 Outcomes == {"ok", "solved", "fail", "cancel", "csolved"}
 Notify(c) == IF observer THEN Append(calls, c) ELSE calls
+CancelledBy(c) == cancelled \/ (observer /\ c \in ocancel)
 
-InitWith(s, o) ==
-    /\ script = s /\ observer = o
+InitWith(s, o, oc) ==
+    /\ script = s /\ observer = o /\ ocancel = oc
     /\ pc = "trial" /\ run = 0 /\ gen = 0 /\ pop = <<-1, 0>> /\ cancelled = FALSE
     /\ evals = <<>> /\ calls = <<>> /\ cur = <<>> /\ trials = <<>> /\ finalPops = <<>> /\ err = ""
 
@@ -40,17 +44,17 @@ StartTrial ==
     /\ pc = "trial"
     /\ IF run < NumRuns
        THEN /\ pop' = <<run, 0>> /\ gen' = 0 /\ cur' = <<>>
-            /\ calls' = Notify(<<"start", run, -1>>)
+            /\ calls' = Notify(<<"start", run, -1>>) /\ cancelled' = CancelledBy(<<"start", run, -1>>)
             /\ pc' = "gen"
-       ELSE /\ pc' = "done" /\ UNCHANGED <<pop, gen, cur, calls>>
-    /\ UNCHANGED <<script, observer, run, cancelled, evals, trials, finalPops, err>>
+       ELSE /\ pc' = "done" /\ UNCHANGED <<pop, gen, cur, calls, cancelled>>
+    /\ UNCHANGED <<script, observer, ocancel, run, evals, trials, finalPops, err>>
 \* top of the generation loop: leave the loop at NumGens, stop on a cancelled context
 GenLoop ==
     /\ pc = "gen"
     /\ IF gen >= NumGens THEN pc' = "finish" /\ err' = err
        ELSE IF cancelled THEN pc' = "done" /\ err' = "cancelled"
        ELSE pc' = "eval" /\ err' = err
-    /\ UNCHANGED <<script, observer, run, gen, pop, cancelled, evals, calls, cur, trials, finalPops>>
+    /\ UNCHANGED <<script, observer, ocancel, run, gen, pop, cancelled, evals, calls, cur, trials, finalPops>>
 \* evaluator.GenerationEvaluate
 Evaluate ==
     /\ pc = "eval"
@@ -60,29 +64,29 @@ Evaluate ==
        /\ IF o = "fail" THEN pc' = "done" /\ err' = "fail"
           ELSE IF o \in {"solved", "csolved"} THEN pc' = "record" /\ err' = err
           ELSE pc' = "epoch" /\ err' = err
-    /\ UNCHANGED <<script, observer, run, gen, pop, calls, cur, trials, finalPops>>
+    /\ UNCHANGED <<script, observer, ocancel, run, gen, pop, calls, cur, trials, finalPops>>
 \* epochExecutor.NextEpoch (only for a generation that was not solved); fails on a cancelled context
 Turnover ==
     /\ pc = "epoch"
     /\ IF cancelled THEN pc' = "done" /\ err' = "cancelled" /\ pop' = pop
        ELSE pc' = "record" /\ err' = err /\ pop' = <<pop[1], pop[2] + 1>>
-    /\ UNCHANGED <<script, observer, run, gen, cancelled, evals, calls, cur, trials, finalPops>>
+    /\ UNCHANGED <<script, observer, ocancel, run, gen, cancelled, evals, calls, cur, trials, finalPops>>
 \* append the generation to the trial, notify EpochEvaluated; a solved generation ends the trial
 Record ==
     /\ pc = "record"
     /\ LET solved == script[run + 1][gen + 1] \in {"solved", "csolved"} IN
        /\ cur' = Append(cur, <<gen, solved>>)
-       /\ calls' = Notify(<<"epoch", run, gen>>)
+       /\ calls' = Notify(<<"epoch", run, gen>>) /\ cancelled' = CancelledBy(<<"epoch", run, gen>>)
        /\ IF solved THEN pc' = "finish" /\ gen' = gen ELSE pc' = "gen" /\ gen' = gen + 1
-    /\ UNCHANGED <<script, observer, run, pop, cancelled, evals, trials, finalPops, err>>
+    /\ UNCHANGED <<script, observer, ocancel, run, pop, evals, trials, finalPops, err>>
 \* store the trial, notify TrialRunFinished exactly once, next trial
 FinishTrial ==
     /\ pc = "finish"
     /\ trials' = Append(trials, [id |-> run, gens |-> cur])
     /\ finalPops' = Append(finalPops, pop)
-    /\ calls' = Notify(<<"finish", run, -1>>)
+    /\ calls' = Notify(<<"finish", run, -1>>) /\ cancelled' = CancelledBy(<<"finish", run, -1>>)
     /\ run' = run + 1 /\ pc' = "trial"
-    /\ UNCHANGED <<script, observer, gen, pop, cancelled, evals, cur, err>>
+    /\ UNCHANGED <<script, observer, ocancel, gen, pop, evals, cur, err>>
 Next == StartTrial \/ GenLoop \/ Evaluate \/ Turnover \/ Record \/ FinishTrial
 
 (* ---------------- C20 as invariants over the logs ---------------- *)
@@ -119,8 +123,19 @@ NoObserverNoCalls == ~observer => calls = <<>>
 Final == pc = "done" =>
     /\ (err = "") => (Len(trials) = NumRuns)
     /\ (err = "fail") => script[evals[Len(evals)][1] + 1][evals[Len(evals)][2] + 1] = "fail"
-    /\ (err = "cancelled") => \E i \in DOMAIN evals : script[evals[i][1] + 1][evals[i][2] + 1] \in {"cancel", "csolved"}
-    /\ (\A i \in DOMAIN evals : script[evals[i][1] + 1][evals[i][2] + 1] \in {"ok", "solved"}) => err = ""
+    /\ (err = "cancelled") => \/ \E i \in DOMAIN evals : script[evals[i][1] + 1][evals[i][2] + 1] \in {"cancel", "csolved"}
+                              \/ \E i \in DOMAIN calls : calls[i] \in ocancel
+    /\ ((\A i \in DOMAIN evals : script[evals[i][1] + 1][evals[i][2] + 1] \in {"ok", "solved"})
+          /\ (\A i \in DOMAIN calls : calls[i] \notin ocancel)) => err = ""
+\* a cancelled context stops the run before the next generation: nothing is evaluated after the notification during which
+\* the observer cancelled (the evaluator-side cancellations are covered by EvalOrder / Final through the script)
+NoEvalAfterObserverCancel ==
+    \A i \in DOMAIN calls : calls[i] \in ocancel =>
+       \A j \in DOMAIN evals :
+          LET c == calls[i]  e == evals[j] IN
+          \/ e[1] < c[2]
+          \/ (e[1] = c[2] /\ c[1] = "epoch" /\ e[2] <= c[3])
+          \/ (e[1] = c[2] /\ c[1] = "finish")
 \* a trial that ended with a solved generation leaves its population as it was evaluated (no turnover after solved)
 SolvedNotTurnedOver == \A i \in DOMAIN trials :
     LET g == trials[i].gens IN (g # <<>> /\ g[Len(g)][2]) => finalPops[i] = <<i - 1, Len(g) - 1>>
